@@ -45,7 +45,7 @@ WrapUp(j, job) ==   \* job is the pivot task currently addressed to chain[j]'s p
 Wrapped == LET n == Len(chain) IN
            WrapUp(n - 1, PivotTask(chain[n], Pipe(chain[n], Enc(chain[n], Task(chain[n])))))
 
-Dropped == "parse32" \in Defects /\ \E i \in 2..Len(chain) : cls[chain[i]] \in {"topbit", "max"}
+Dropped == "parse32" \in Defects /\ \E i \in 2..Len(chain) : cls[chain[i]] \in {"topbit", "max"}      \* ("r2" only ever stands first)
 
 (* what the Demons do: every hop opens its layer with its own key *)
 RECURSIVE Unwrap(_, _, _)
@@ -73,6 +73,19 @@ Up(owner) ==
     /\ hist' = Append(hist, [op |-> "Up", owner |-> owner, kind |-> ""])
     /\ UNCHANGED <<chain, cls>>
 
+(* the topology changes under the traffic: hop h (with everything behind it) reconnects through another agent that talks to
+   the listener directly ("r2"); later its former parent reports the old link gone - which is no news.  Tasks and callbacks
+   follow the chain as it is now *)
+Idx(h) == CHOOSE i \in 1..Len(chain) : chain[i] = h
+Rehang(h) == /\ "r2" \notin {chain[i] : i \in 1..Len(chain)} /\ \E i \in 2..Len(chain) : chain[i] = h
+             /\ chain' = <<"r2">> \o SubSeq(chain, Idx(h), Len(chain))
+             /\ last' = [op |-> "Rehang", owner |-> h, delivered |-> FALSE, path |-> <<>>, at |-> "", ok |-> TRUE]
+             /\ hist' = Append(hist, [op |-> "Rehang", owner |-> h, kind |-> chain[Idx(h) - 1]])       \* kind: the former parent
+             /\ UNCHANGED cls
+LateDisconnect == /\ Len(hist) > 0 /\ hist[Len(hist)].op = "Rehang"
+                  /\ last' = [op |-> "LateDisconnect", owner |-> hist[Len(hist)].owner, delivered |-> FALSE, path |-> <<>>, at |-> "", ok |-> TRUE]
+                  /\ hist' = Append(hist, [op |-> "LateDisconnect", owner |-> hist[Len(hist)].owner, kind |-> hist[Len(hist)].kind])
+                  /\ UNCHANGED <<chain, cls>>
 Next == /\ Len(hist) < 3
         /\ \/ \E k \in Kinds : Down(k)
            \/ \E o \in {chain[i] : i \in 1..Len(chain)} \cup {"nobody"} : Up(o)
